@@ -1,4 +1,4 @@
-import NomtModel.Store.ExtRangeInit
+import NomtModel.Store.ExtRangePhase
 import NomtModel.Store.ExtRangeToy
 /-!
 # C13 — the multi-worker split of the beatree update and its extend-range protocol
@@ -44,7 +44,7 @@ theorem T13_op_ranges_cover (keys : List Nat) (total : Nat) : ∀ (ws : List WP)
       exact ⟨x, List.mem_cons_of_mem _ hx, hx1, hx2⟩
 
 /-- **T13.protocol_invariant_every_schedule** — for every node updater, every level, every change list, every worker
-count and EVERY interleaving `s` of the worker threads (the code as it is: `staleHigh = false`; leaf or branch stage, with
+count and EVERY interleaving `s` of the worker threads (the code as it is: `staleHigh = false`, `highMax = false`; leaf or branch stage, with
 or without the `single-merge` change), started in the state `run` spawns the workers in: the run never reaches a PROTOCOL
 panic site (`right_neighbor.unwrap()`, a `send` on a disconnected channel, `rx.recv().unwrap()` after the responder is gone,
 a response to a requester that does not wait, a request dropped with its `Receiver`, `assert!(pending_left_request
@@ -55,13 +55,13 @@ and at most one outstanding request, whose sender is blocked until the answer; a
 channel, pending at the neighbour, or its answer in its slot; the receiver of a live sender has not returned; `range.high =
 Some` implies a right neighbour (before the worker finished its workload). -/
 theorem T13_protocol_invariant_every_schedule {σ N C : Type} (U : Upd σ N C) (cfg : Cfg) (hs : cfg.staleHigh = false)
-    (db : List (DbN N)) (cs : List (Nat × C)) (look : Nat → Option Nat) (hlook : ∀ k s, look k = some s → s ≤ k)
+    (hm : cfg.highMax = false) (db : List (DbN N)) (cs : List (Nat × C)) (look : Nat → Option Nat) (hlook : ∀ k s, look k = some s → s ≤ k)
     (hasc : Asc (cs.map (·.1))) (hne : cs ≠ []) (count : Nat) (s : List Nat) :
     match runSched U cfg db s (initG U cfg db cs (prepareWorkers look (cs.map (·.1)) count)) with
     | .inr g' => AInv (absG g')
     | .inl site => site ∈ updSites := by
   have hc := (T13_prepare_workers_partition look hlook (cs.map (·.1)) hasc (by simpa using hne) count).1
-  exact inv_runSched U cfg db hs s _ (inv_init U cfg db cs (cs.map (·.1)) _ none 0 false hc)
+  exact inv_runSched U cfg db hs hm s _ (inv_init U cfg db cs (cs.map (·.1)) _ none 0 false hc)
 
 /-- **T13.no_deadlock** — no cyclic wait: in every reachable state (any state with the protocol invariant) in which some
 worker has not returned, some worker can take a step that is not `blocked`: a move that keeps the invariant, or a panic of
@@ -70,15 +70,61 @@ right worker has finished its workload (`answer … true ≠ none`).  Hence ever
 returned (or in an updater panic).  Fairness: none is needed for this statement — a blocking `recv` is a disabled step, not a
 spin.  Termination of every run additionally needs that the updater's loops terminate (each `NeedsMerge` is followed by a
 `reset_base` that consumes a node of the finite level or removes the cutoff) — not proved here for an abstract updater. -/
-theorem T13_no_deadlock {σ N C : Type} (U : Upd σ N C) (cfg : Cfg) (hs : cfg.staleHigh = false) (db : List (DbN N))
+theorem T13_no_deadlock {σ N C : Type} (U : Upd σ N C) (cfg : Cfg) (hs : cfg.staleHigh = false) (hm : cfg.highMax = false) (db : List (DbN N))
     (g : G σ N C) (h : AInv (absG g)) (hnd : allDone g = false) :
     ∃ i, i < g.n ∧ ((∃ g', step U cfg db g i = .ok g' ∧ AInv (absG g')) ∨
       ∃ site, step U cfg db g i = .panic site ∧ site ∈ updSites) :=
-  progress U cfg db hs g h hnd
+  progress U cfg db hs hm g h hnd
 
 /-- **T13.deferred_request_answered** — `try_answer_left_neighbor(.., has_finished_workload = true)` always answers. -/
 theorem T13_deferred_request_answered {N : Type} (inner : Inner N) (low high right : Option Nat) :
     answer inner low high right true ≠ none := answer_fin inner low high right
+
+/-- **T13.answer_stable** — the core of schedule independence: an answer that can be given from a tracker (before the
+worker has finished) is the answer given from ANY later tracker that has the same entries followed by more — finished or
+not — and the additional entries stay with the responder.  So it does not matter at which of its polls a worker answers a
+request, provided the entries it produces later come behind the ones it has (`T13_tracker_keys_ascend_every_schedule`). -/
+theorem T13_answer_stable {N : Type} (inner ext : Inner N) (low high right : Option Nat) (fin : Bool) (resp : Resp N)
+    (inner' : Inner N) (relink : Bool) (h : answer inner low high right false = some (resp, inner', relink)) :
+    answer (inner ++ ext) low high right fin = some (resp, inner' ++ ext, relink) :=
+  answer_stable inner ext low high right fin resp inner' relink h
+
+/-- **T13.tracker_keys_ascend_every_schedule** — for every updater that satisfies the key laws `KeyLaws` (the separators one
+`digest` emits lie below the bound `lb` of the state it leaves, and no call lowers `lb` — the per-call form of "separators
+ascend", `T1_*_separators_chain` for the real updaters along one worker's run), for every level, change list, worker count
+and EVERY interleaving: in every state reached, every produced node a worker holds sits in its tracker under a separator
+below `lb` of its updater, and in every response in flight only the last entry carries a node.  Hence `NodesTracker::insert`
+never replaces a produced node (the next separators are `≥ lb`), and what a worker appends to its tracker later lies behind
+its produced nodes — the premise of `T13_answer_stable`. -/
+theorem T13_tracker_keys_ascend_every_schedule {σ N C : Type} (U : Upd σ N C) (lb : σ → Nat) (KL : KeyLaws U lb) (cfg : Cfg)
+    (hs : cfg.staleHigh = false) (hm : cfg.highMax = false) (db : List (DbN N)) (cs : List (Nat × C))
+    (look : Nat → Option Nat) (hlook : ∀ k s, look k = some s → s ≤ k) (hasc : Asc (cs.map (·.1))) (hne : cs ≠ [])
+    (count : Nat) (s : List Nat) :
+    match runSched U cfg db s (initG U cfg db cs (prepareWorkers look (cs.map (·.1)) count)) with
+    | .inr g' => KInv lb g'
+    | .inl _ => True := by
+  have hc := (T13_prepare_workers_partition look hlook (cs.map (·.1)) hasc (by simpa using hne) count).1
+  exact kinv_runSched KL cfg db hs hm s _ (inv_init U cfg db cs (cs.map (·.1)) _ none 0 false hc)
+    (kinv_init U lb cfg db cs _)
+
+/-- **T13.no_extension_in_scope_loop_every_schedule** — for every updater with the scope laws (`is_in_scope(k)` = "`k` below
+the cutoff"; `NeedsMerge(c)` returns the cutoff), every level, change list, worker count and EVERY interleaving: in every
+state reached (`PInv`) the remaining ops of every worker and the key it is about to hand to `reset_*_base` inside the
+`while !is_in_scope(key)` loop are below its `range.high`, the program point "waiting for a response inside the scope loop"
+is never reached, and a worker that has entered the final merge loop has no ops left.  So the range-extension branch of the
+scope loop of both `run_worker`s is dead code, extensions happen in the final merge loop only, and a worker never polls its
+left neighbour after it has extended its range: the answers it gives in the scope loop are computed from nodes of its own
+initial range only. -/
+theorem T13_no_extension_in_scope_loop_every_schedule {σ N C : Type} (U : Upd σ N C) (cutoffOf : σ → Option Nat)
+    (SL : ScopeLaws U cutoffOf) (cfg : Cfg) (hs : cfg.staleHigh = false) (hm : cfg.highMax = false) (db : List (DbN N))
+    (cs : List (Nat × C)) (look : Nat → Option Nat) (hlook : ∀ k s, look k = some s → s ≤ k) (hasc : Asc (cs.map (·.1)))
+    (hne : cs ≠ []) (count : Nat) (s : List Nat) :
+    match runSched U cfg db s (initG U cfg db cs (prepareWorkers look (cs.map (·.1)) count)) with
+    | .inr g' => PInv g'
+    | .inl _ => True := by
+  have hc := (T13_prepare_workers_partition look hlook (cs.map (·.1)) hasc (by simpa using hne) count).1
+  exact pinv_runSched SL cfg db hs hm s _ (inv_init U cfg db cs (cs.map (·.1)) _ none 0 false hc)
+    (pinv_init U cfg db cs _ none 0 false hc)
 
 /-- FULL statement wanted (NOT proved in general): for every updater, level, change list and worker count the level the
 stage produces is the same for every two complete schedules. -/
@@ -108,7 +154,58 @@ theorem T13_worker_count_independent_partial :
     [[10, 30, 31, 32], [33, 40, 41, 42], [50, 51, 52, 53]].flatten = Toy.specKeys Toy.lvlA Toy.csA := by
   constructor <;> decide +kernel
 
+/-- **T13.seeded_high_max_counterexample** — the mirror with `range.high = range.high.max(response.new_high_range)`
+(seeded change `C13-extend-range-high-max`; `None` = unbounded sorts below `Some`): the last worker's first node is emptied
+and an untouched tail follows, so its answer is "everything up to the end is yours" (`new_high_range = None`) and the left
+worker keeps its stale finite bound; its second merge into the tail sends a bogus request (answered with "no right neighbour
+left"), its third reaches `right_neighbor.as_ref().unwrap()` on `None`: with 2 and with 3 workers, under both schedule
+policies, the stage PANICS (the result depends on the worker count — C13), while one worker, and the code as it is with any
+worker count, produce the sequential content.  `T13_protocol_invariant_every_schedule` excludes exactly this site for the
+code as it is. -/
+theorem T13_seeded_high_max_counterexample :
+    ([2, 3].all fun n => [(false, 1000), (true, 1)].all fun p =>
+      Toy.stagePanic { highMax := true } Toy.lvlC Toy.csC n p.1 p.2 == some "right_neighbor.as_ref().unwrap()") = true ∧
+    (Toy.stagePanic { highMax := true } Toy.lvlC Toy.csC 1 false 1000).isNone = true ∧
+    ([1, 2, 3].all fun n => [(false, 1000), (true, 1)].all fun p =>
+      ((Toy.stage {} Toy.lvlC Toy.csC n p.1 p.2).map fun r => r.1.flatten) == some (Toy.specKeys Toy.lvlC Toy.csC)) = true := by
+  refine ⟨?_, ?_, ?_⟩ <;> decide +kernel
+
 /-! ## non-vacuity -/
+
+/-- the toy updater satisfies the scope laws -/
+example : ScopeLaws Toy.upd (fun st => st.cutoff) := by
+  refine ⟨fun st k => rfl, ?_⟩
+  intro st st' outs c h
+  simp only [Toy.upd, Toy.digest] at h
+  split at h
+  · cases h
+  · split at h
+    · split at h
+      · cases h
+      · split at h
+        · cases h
+        · split at h
+          · rename_i c' hc; simp only [Option.some.injEq, Prod.mk.injEq] at h; rw [hc]; exact congrArg some h.2.2
+          · cases h
+    · split at h
+      · cases h
+      · split at h
+        · rename_i c' hc; simp only [Option.some.injEq, Prod.mk.injEq] at h; rw [hc]; exact congrArg some h.2.2
+        · cases h
+
+/-- an updater that satisfies the key laws: it emits one node per `digest`, under the next free separator -/
+example : KeyLaws (σ := Nat) (N := Unit) (C := Unit)
+    { init := 0, inScope := fun _ _ => true, resetBase := fun st _ _ => st, removeCutoff := fun st => st,
+      ingest := fun st _ _ => some st, digest := fun st => some (st + 1, [(st, (), none)], none) } (fun st => st) := by
+  refine ⟨?_, fun _ _ _ => Nat.le_refl _, fun _ => Nat.le_refl _, ?_⟩
+  · intro st st' outs r h
+    simp only [Option.some.injEq, Prod.mk.injEq] at h
+    obtain ⟨h1, h2, _⟩ := h
+    subst h1 h2
+    exact ⟨fun o ho => by simp at ho; subst ho; exact Nat.lt_succ_self _, Nat.le_succ _⟩
+  · intro st k c st' h
+    simp only [Option.some.injEq] at h; subst h; exact Nat.le_refl _
+
 
 /-- `prepare_workers` on the toy level: two workers, adjacent at the separator 20 -/
 example : prepareWorkers (Toy.look (Toy.mkDb Toy.lvlA)) (Toy.csA.map (·.1)) 2 =
